@@ -1,5 +1,6 @@
 import TorrentVerif.Proofs.HasherV1
 import TorrentVerif.Proofs.Listing
+import TorrentVerif.Proofs.CreatorsV1
 /-
   C01 — v1 piece string is the BEP 3 hashing of exactly the files on disk.
   Property theorems only; helper lemmas live in `Proofs/`.
@@ -59,5 +60,76 @@ example : (Impl.listV1 List.reverse [114] Listing.exTree).Perm
     ((Impl.listV1 List.reverse [114] Listing.exTree).map (·.1)).Nodup :=
   listing_each_file_once List.reverse List.reverse_perm [114] Listing.exTree
     Listing.exTree_wellNamed
+
+end TorrentVerif.Props.C01
+
+/-! ### the whole v1 metafile (`Impl.createV1` of `Model/Creators.lean`) -/
+namespace TorrentVerif.Props.C01
+open TorrentVerif TorrentVerif.Toy TorrentVerif.Ex.G7
+
+/-- The v1 metafile `TorrentFile` writes for a directory (names non-empty, `/`-free, distinct
+    among siblings; rooted at any path `pre`; any enumeration order; no `align`): the creator
+    succeeds only if the directory holds a regular file, and then
+    * `info.files` is the list of all regular files sorted by full path string
+      (`Spec.sortedFiles`: every file exactly once), each as `{"length": exact length,
+      "path": path relative to the root, split at '/'}`, with no other entries;
+    * `info.pieces` is the BEP 3 piece string (`Spec.v1Pieces`) of the files' bytes
+      concatenated in that listed order;
+    * `info["piece length"]` is the piece length the slices were cut with; there is no
+      `info.length`.  `H1` is arbitrary. -/
+theorem create_v1_metafile (o : CreateOpts) (H1 : Bytes → Bytes)
+    (enum : List (List (Bytes × Bytes)) → List (List (Bytes × Bytes)))
+    (henum : ∀ l, (enum l).Perm l) (pre : Bytes) (es : List (Bytes × Node))
+    (hwn : Spec.WellNamed (.dir es)) (hpl : 0 < o.pieceLength) (r : BVal) (b : Bytes)
+    (h : Impl.createV1 o false H1 enum pre (.dir es) = some (r, b)) :
+    Spec.sortedFiles pre (.dir es) ≠ [] ∧
+    r.infoGet? K.files = some (.list ((Spec.sortedFiles pre (.dir es)).map fun x =>
+      .dict [(K.length, .int x.2.length),
+             (K.path, strs (Spec.splitOn Listing.sep (x.1.drop (pre.length + 1))))])) ∧
+    r.infoGet? K.pieces = some (.str
+      (Spec.v1Pieces H1 o.pieceLength ((Spec.sortedFiles pre (.dir es)).map (·.2))).flatten) ∧
+    r.infoGet? K.pieceLength = some (.int o.pieceLength) ∧
+    r.infoGet? K.length = none := by
+  obtain ⟨hne, _, hk⟩ := createV1_dir o false H1 enum henum pre es hwn hpl r b h
+  refine ⟨hne, ?_, ?_, hk.pieceLength, hk.length⟩
+  · have hf : r.infoGet? K.files = some (.list (Impl.v1Entries false o.pieceLength
+        (v1Listed pre (Spec.sortedFiles pre (.dir es))))) := hk.files
+    rw [hf, v1Entries_false, v1Listed_entries]
+  · rw [hk.pieces]; rfl
+
+/-- met by: the example tree rooted at `r`, enumerated backwards, piece length 4 (pieces
+    straddle file boundaries; one file is empty); the creator succeeds -/
+example : ∃ r b, Impl.createV1 exOpts false toyH1 List.reverse [114] exTree = some (r, b) ∧
+    r.infoGet? K.pieces = some (.str
+      (Spec.v1Pieces toyH1 4 ((Spec.sortedFiles [114] exTree).map (·.2))).flatten) := by
+  have hne := exTree_sorted_ne [114]
+  obtain ⟨r, b, h⟩ := createV1_dir_some exOpts false toyH1 List.reverse List.reverse_perm [114] _
+    exTree_wellNamed hne
+  exact ⟨r, b, h, (create_v1_metafile exOpts toyH1 List.reverse List.reverse_perm [114] _
+    exTree_wellNamed (by decide) r b h).2.2.1⟩
+
+/-- Single file (with or without the `align` option): `info.length` is the file's length,
+    there is no `files` list, and `info.pieces` is the BEP 3 piece string of that file alone
+    (only the last piece may be short); the recorded piece length is the one used. -/
+theorem create_v1_single (o : CreateOpts) (align : Bool) (H1 : Bytes → Bytes)
+    (enum : List (List (Bytes × Bytes)) → List (List (Bytes × Bytes))) (pre : Bytes) (d : Bytes)
+    (hpl : 0 < o.pieceLength) :
+    ∃ r b, Impl.createV1 o align H1 enum pre (.file d) = some (r, b) ∧
+      r.infoGet? K.length = some (.int d.length) ∧ r.infoGet? K.files = none ∧
+      r.infoGet? K.pieces = some (.str ((chunks o.pieceLength d).map H1).flatten) ∧
+      r.infoGet? K.pieceLength = some (.int o.pieceLength) := by
+  rw [createV1_file o align H1 enum pre d hpl]
+  obtain ⟨r, b, h⟩ := written_v1_some o (.single d.length) ((chunks o.pieceLength d).map H1).flatten
+  obtain ⟨hs', _⟩ := written_some _ r b h
+  have hk := v1_keys _ _ _ r hs'
+  exact ⟨r, b, h, hk.length, hk.files, hk.pieces, hk.pieceLength⟩
+
+/-- met by: a 9-byte file, piece length 4, `align` requested: last piece is the bare byte 9 -/
+example : ∃ r b, Impl.createV1 exOpts true toyH1 id [114] exFile = some (r, b) ∧
+    r.infoGet? K.pieces = some (.str (toyH1 [1,2,3,4] ++ toyH1 [5,6,7,8] ++ toyH1 [9])) := by
+  obtain ⟨r, b, h, _, _, hp, _⟩ := create_v1_single exOpts true toyH1 id [114] [1,2,3,4,5,6,7,8,9]
+    (by decide)
+  refine ⟨r, b, h, ?_⟩
+  rw [hp]; simp [exOpts, chunks]
 
 end TorrentVerif.Props.C01
